@@ -10,11 +10,10 @@ THEOREMS = ["held_not_closed", "idle_closed_at", "idle_run_closed_at", "poll_set
             "inbound_negotiation_holds_connection",
             "half_closed_substream_holds_connection"]
 CONSTS = ["KEEP_ALIVE_TIMEOUT_SECS"]
-from . import node as node_area  # noqa: E402
 CONST_TABLE = [
     ("KEEP_ALIVE_TIMEOUT_SECS", "src/transport/mod.rs",
      r"pub\(crate\) const KEEP_ALIVE_TIMEOUT: Duration = Duration::from_secs\(([^)]+)\);", 5),
-] + [r for r in node_area.CONST_TABLE if r[0] != "KEEP_ALIVE_TIMEOUT_SECS"]
+]
 MANIFEST = {
     "text": "Lean 4 theorems about an operational model of the keep-alive mechanism (ConnectionHandle Active/Inactive, "
             "Permit, KeepAliveTracker with lazily started timers, the multiset of strong senders of a connection's command "
@@ -455,3 +454,11 @@ def oracle_extra(xpid, case, out):
 def stats_extra(xpid, case, out, acc):
     from . import tcploop
     tcploop.stats(case, out, acc)
+
+
+# ---------------------------------------------------------------- real nodes through the public API (engine: extra_cases)
+# `Litep2p::new` (src/lib.rs) and `ConfigBuilder` (src/config.rs) hand every protocol its configuration; the `node` area
+# (checks/node.py) builds real nodes, compares the registration record with the wiring model (Model/Node/Wiring.lean)
+# and judges this property's real-time scenarios at node level.
+from . import node as _node  # noqa: E402
+_node.install(globals())
